@@ -1,6 +1,7 @@
 """C09 — bring-up never endangers the device and never serves from an unsafe state."""
 import itertools
 import gen
+import stack
 import devices
 import bringup
 from . import funcases, servercases
@@ -157,11 +158,40 @@ def rebringup_cases(rng):
         cases.append({"mode": "v5", "kind": kind, "lines": [gen.line(req)] * 3, "connects": [True, True, True],
                       "pin": (mgr_pin, needs_change), "rand": [b"Zz9Zz9Zz", b"Yy8Yy8Yy", b"Xx7Xx7Xx"],
                       "fs": [True, True, True], "device": devices.PowerCycled(d), "meta": st})
+    # the unit that answers after a lost link is in signer mode but must not be served (unsupported signer
+    # version, not onboarded), or may be served; the first repair is cut short by a time-out at one of its
+    # checks; further requests follow: none may reach a device that no complete bring-up has accepted
+    for new_state, servable in (({"version": (5, 5, 0)}, False), ({"version": (6, 0, 0)}, False),
+                                ({"onboarded": False}, False), ({"version": (5, 4, 1)}, True),
+                                ({"version": (5, 3, 9)}, True)):
+        for t_at in (None, 1, 2, 3):
+            for kind in ("ledger", "sgx"):
+                d = gen.random_device(rng)
+                d.sgx = kind == "sgx"
+                req = {"command": "getPubKey", "version": 5, "keyId": gen.PATHS[0]}
+                cases.append({"mode": "v5", "kind": kind, "lines": [gen.line(req)] * 4,
+                              "connects": [True, True, True, True], "pin": (b"1234567a", False),
+                              "rand": [], "fs": [], "device": devices.Swapped(d, new_state, t_at),
+                              "meta": {"swapped": True, "servable": servable, "new_state": new_state,
+                                       "timeout_at": t_at, "kind": kind}})
     return cases
 
 
 def rebringup_oracle(case, obs):
     st = case["meta"]
+    if st.get("swapped"):
+        apdus = [e[1] for e in obs["trace"] if e[0] == "A"]
+        served = [a for a in apdus[1:] if a[1] == 0x04]       # command APDUs after the one that lost the link
+        if served and not st["servable"]:
+            return {"key": "C09:rebringup:serve-unsafe", "what": "a client request reached a device that no "
+                    "bring-up may accept (%r), after a repair cut short by a time-out at its check %r"
+                    % (st["new_state"], st["timeout_at"])}
+        if st["servable"] and not any(r["stop"] for r in obs["replies"]):
+            j = stack.reply_json(obs["replies"][-1])
+            if j is None or j.get("errorcode") != 0:
+                return {"key": "C09:rebringup:not-served", "what": "a device in signer mode with a supported "
+                        "signer version is not served after the repair (last reply %r)" % obs["replies"][-1]["raw"][:60]}
+        return None
     unlock_cmd = 0xA3 if st["kind"] == "sgx" else 0xFE
     # split the trace into bring-ups (each starts at a successful connect)
     segs, cur = [], None
